@@ -1063,6 +1063,24 @@ func (c *Ctx) doRecv(st *State, fr *Frame, x *ssa.UnOp) []cont {
 	ch := c.term(fr, x.X, st)
 	el := x.X.Type().Underlying().(*types.Chan).Elem()
 	c.soleReceiver(st, fr, x, ch, true)
+	// a counting semaphore (declared `opt semaphore <chan>`): a blocking receive gives a permit back
+	// and waits forever if this goroutine holds none and nobody else releases
+	if c.cur != nil && c.cur.contract != nil && c.cur.contract.Opts["semaphore"] != "" {
+		if e, err := ParseSpecExpr(c.cur.contract.Opts["semaphore"]); err == nil {
+			top := fr
+			env := c.envForFrame(st, top)
+			savedErrs := len(c.Errors)
+			if sv, err := c.evalSpec(env, e); err == nil {
+				sn := Select(c.Arr(st, "SentNow", ArraySort(SInt, SBool)), ch)
+				goal := sn
+				if sv.t.S != ch.S {
+					goal = Or(Not(Eq(ch, sv.t)), sn)
+				}
+				c.Oblige(st, fr, x, "nonblocking", "recv-without-permit", goal, "blocking receive on the semaphore without holding a permit (waits forever when no other goroutine releases)")
+			}
+			c.Errors = c.Errors[:savedErrs]
+		}
+	}
 	v, ok := c.recvEffects(st, ch, el)
 	c.assumeChanInv(st, ch, v, ok, el)
 	if x.CommaOk {
